@@ -97,6 +97,65 @@ def accessors(facts):
     return out
 
 
+def accessor_problems(facts, b, names, verdict, stack=()):
+    """problems of one accessor body (empty list = honours the age); fills b._c15"""
+    if b.path in verdict:
+        return verdict[b.path]
+    prov = Prov(b, facts)
+    g = Guards(b, prov, facts)
+    fedges, tests = fresh_edges(b, g)
+    expired_calls = [bi for bi, t in find_calls(b, r"LruTimeCache::remove_expired_values$")]
+    problems = []
+    sites = 0
+    for lhs, kind, payload, blk, dline in prov.defs.get(0, ()):
+        if blk not in b.live_blocks():
+            continue
+        if kind == "rv" and payload.k == "agg" and payload.j.get("variant") == "None":
+            continue
+        if kind == "rv" and payload.k == "agg" and payload.j.get("variant") == "Some":
+            sites += 1
+            r = b.reachable(0, removed_edges=fedges, removed_blocks=expired_calls)
+            if blk in r:
+                p = path_to(b, [blk], removed_edges=fedges, removed_blocks=expired_calls)
+                problems.append(("returns Some at %s without passing an age test against ttl" % b.loc(dline),
+                                 describe_path(b, p or [])))
+            continue
+        if kind == "call":
+            # delegation: the value comes from another accessor of the same type
+            e = prov.call(payload, blk)
+            rs = roots(e, extra_transparent=lambda c: [0] if re.search(
+                r"option::Option::(map|and_then|filter)$", short(c[1])) else None)
+            ok = True
+            for r_ in rs:
+                if r_[0] == "call" and r_[1] in names and r_[1] != b.path and r_[1] not in stack:
+                    sites += 1
+                    sub = accessor_problems(facts, names[r_[1]], names, verdict, stack + (b.path,))
+                    if sub:
+                        problems.append(("delegates to %s, which does not honour the age" % short(r_[1]), []))
+                elif r_[0] == "agg" and r_[1].endswith("Option::None"):
+                    pass
+                else:
+                    ok = False
+            if not ok:
+                sites += 1
+                problems.append(("return value derives from %s, not from an age-checked entry" % fmt(e)[:160], []))
+            continue
+        if kind == "rv" and payload.k == "use" and payload.ops[0].place is not None:
+            e = prov.operand(payload.ops[0])
+            somes = [x for x in walk(e) if x[0] == "agg" and x[1].endswith("Option::Some")]
+            if somes:
+                sites += 1
+                r = b.reachable(0, removed_edges=fedges, removed_blocks=expired_calls)
+                if blk in r:
+                    problems.append(("returns a Some built elsewhere without passing an age test", []))
+            continue
+        sites += 1
+        problems.append(("unrecognised definition of the return value in bb%d" % blk, []))
+    verdict[b.path] = problems
+    b._c15 = (sites, tests)
+    return problems
+
+
 def r1(ctx):
     facts = ctx.facts
     rule = Rule("C15.R1", "every accessor returning a reference to a stored value honours the age (ttl)", floor=3,
@@ -104,69 +163,9 @@ def r1(ctx):
     accs = accessors(facts)
     names = {b.path: b for b in accs}
     verdict = {}
-
-    def decide(b, stack=()):
-        if b.path in verdict:
-            return verdict[b.path]
-        prov = Prov(b, facts)
-        g = Guards(b, prov, facts)
-        fedges, tests = fresh_edges(b, g)
-        expired_calls = [bi for bi, t in find_calls(b, r"LruTimeCache::<K, V>::remove_expired_values$")]
-        problems = []
-        sites = 0
-        for lhs, kind, payload, blk, dline in prov.defs.get(0, ()):
-            if blk not in b.live_blocks():
-                continue
-            if kind == "rv" and payload.k == "agg" and payload.j.get("variant") == "None":
-                continue
-            if kind == "rv" and payload.k == "agg" and payload.j.get("variant") == "Some":
-                sites += 1
-                r = b.reachable(0, removed_edges=fedges, removed_blocks=expired_calls)
-                if blk in r:
-                    p = path_to(b, [blk], removed_edges=fedges, removed_blocks=expired_calls)
-                    problems.append(("returns Some at %s without passing an age test against ttl"
-                                     % b.loc(dline),
-                                     describe_path(b, p or [])))
-                continue
-            if kind == "call":
-                # delegation: the value comes from another accessor of the same type
-                e = prov.call(payload, blk)
-                rs = roots(e, extra_transparent=lambda c: [0] if re.search(r"option::Option::(map|and_then|filter)$", short(c[1])) else None)
-                ok = True
-                for r_ in rs:
-                    if r_[0] == "call" and r_[1] in names and r_[1] != b.path and r_[1] not in stack:
-                        sites += 1
-                        sub = decide(names[r_[1]], stack + (b.path,))
-                        if sub:
-                            problems.append(("delegates to %s, which does not honour the age" % short(r_[1]), []))
-                    elif r_[0] == "agg" and r_[1].endswith("Option::None"):
-                        pass
-                    else:
-                        ok = False
-                if not ok:
-                    sites += 1
-                    problems.append(("return value derives from %s, not from an age-checked entry" % fmt(e)[:160], []))
-                continue
-            if kind == "rv" and payload.k == "use" and payload.ops[0].place is not None:
-                # `_0 = move _x`: look through to the option's construction sites
-                e = prov.operand(payload.ops[0])
-                somes = [x for x in walk(e) if x[0] == "agg" and x[1].endswith("Option::Some")]
-                if somes:
-                    sites += 1
-                    # conservative: require the return block itself to be guarded
-                    r = b.reachable(0, removed_edges=fedges, removed_blocks=expired_calls)
-                    if blk in r:
-                        problems.append(("returns a Some built elsewhere without passing an age test", []))
-                continue
-            sites += 1
-            problems.append(("unrecognised definition of the return value in bb%d" % blk, []))
-        verdict[b.path] = problems
-        b._c15 = (sites, tests)
-        return problems
-
     for b in accs:
         rule.analysed(b)
-        problems = decide(b)
+        problems = accessor_problems(facts, b, names, verdict)
         sites, tests = b._c15
         name = b.path.split("::")[-1]
         if problems:
@@ -177,6 +176,17 @@ def r1(ctx):
             rule.ok("accessor %s" % name, "%d Some-site(s)/delegations guarded; age tests at lines %s" % (
                 sites, [t[1] for t in tests]))
     return rule
+
+
+def selftest(ctx):
+    """the rule must fire on the bad fixtures and stay silent on the good ones"""
+    fx = ctx.fixtures
+    out = []
+    for b in fx.find(r"crate::lru::Cache::\w+"):
+        name = b.path.split("::")[-1]
+        problems = accessor_problems(fx, b, {}, {})
+        out.append(("C15.R1", name, name.startswith("bad_"), bool(problems)))
+    return out
 
 
 def cap_atom(e):
